@@ -107,3 +107,20 @@ Theorem C15_values_at_points_fuzzy_nearest data pts rows :
   Forall2 (fun t r => In r data /\ forall r', In r' data -> Z.abs (fst r - t) <= Z.abs (fst r' - t)) pts rows.
 Proof. exact (gvap_fuzzy_nearest_from_start data pts rows). Qed.
 Print Assumptions C15_values_at_points_fuzzy_nearest.
+
+(* intervalOverlapCheck with a percent threshold pn/pd > 0: the intervals overlap and the overlap is at least that
+   fraction of the extent the two intervals cover together *)
+Theorem C15_overlap_check_percent_threshold s e cs ce pn pd :
+  0 < pn ->
+  overlap_check s e cs ce pn pd 0 false
+  = (let ot := Z.max 0 (Z.min e ce - Z.max s cs) in
+     (0 <? ot) && (pn * (Z.max e ce - Z.min s cs) <=? ot * pd)).
+Proof. exact (overlap_check_percent s e cs ce pn pd). Qed.
+Print Assumptions C15_overlap_check_percent_threshold.
+
+(* with both thresholds the percent condition alone decides (see the remark in Tier/QueryFuzzyProofs.v) *)
+Theorem C15_overlap_check_both_thresholds s e cs ce pn pd th :
+  0 < pn -> 0 < th ->
+  overlap_check s e cs ce pn pd th false = overlap_check s e cs ce pn pd 0 false.
+Proof. exact (overlap_check_percent_and_time s e cs ce pn pd th). Qed.
+Print Assumptions C15_overlap_check_both_thresholds.
